@@ -636,6 +636,15 @@ class Lib:
             if isinstance(r_node, ast.Slice) and r_node.lower is None and r_node.upper is None:
                 c = ex.eval(c_node, st)
                 return Seq(base.n, lambda i: ex.load_elem(base.at(i), c, st, node), "array")
+            if not isinstance(r_node, ast.Slice) and not isinstance(c_node, ast.Slice) \
+                    and isinstance(base.ety(), tuple) and base.ety()[0].startswith("seq:"):
+                # a[r, c] on a 2-D array
+                r, c = idx
+                if is_scalar(r) and is_scalar(c):
+                    r = ex.norm_index(r, base.n, st, node)
+                    row = base.at(r)
+                    c = ex.norm_index(c, row.n, st, node)
+                    return row.at(c)
         raise EngineError("%s:L%d: 2-D indexing outside the subset" % (ex.fnname, node.lineno))
 
     def exec_with(self, ex, node, st):
@@ -831,13 +840,32 @@ class Lib:
         memo = self.ctx.__dict__.setdefault("_psum_memo", {})
         if id(s) in memo and memo[id(s)][0] is s:
             return memo[id(s)][1]
+        # two sequences with the same length term and the same element term at a symbolic position are the same
+        # sequence, hence have the same partial sums (the key is the printed term with the probe variable fixed)
+        skey = None
+        if not ex.bound_stack and not s.concrete_len():
+            try:
+                probe = z3.Int("psum!probe")
+                e = s.at(probe)
+                if is_z3(e) or isinstance(e, (int, Fraction)):
+                    skey = ("struct", to_z3(s.n).sexpr(), to_z3(e).sexpr() if is_z3(e) else repr(e), s.ety() == "real")
+            except EngineError:
+                skey = None
+        if skey is not None and skey in memo:
+            # same sequence: same function; its defining recurrence is (re)stated in this state
+            c = self._partial_sums(ex, st, s, memo[skey][1])
+            memo[id(s)] = (s, c)
+            return c
         c = self._partial_sums(ex, st, s)
         memo[id(s)] = (s, c)
+        if skey is not None:
+            memo[skey] = (s, c)
         return c
 
-    def _partial_sums(self, ex, st, s):
+    def _partial_sums(self, ex, st, s, c=None):
         real = s.ety() == "real"
-        c = z3.Function(uid("psum"), I, R if real else I)
+        if c is None:
+            c = z3.Function(uid("psum"), I, R if real else I)
         conv = as_real if real else as_int
         n = to_z3(s.n)
         k = bvar("k")
@@ -1527,6 +1555,56 @@ class Lib:
                                             z3.And(seg(k) >= 0, seg(k) < n - 1, xseg <= xk, xk <= xseg1)),
                             patterns=[val(k)]))
         return Seq(x.n, lambda kk: val(to_z3(as_int(kk))), "array")
+
+    # ------------------------------------------------------------------ linear algebra by provenance
+    def _cols(self, ex, st, X, node):
+        """Number of columns of a 2-D array given as a sequence of rows (needs at least one row)."""
+        ex.oblige(st, ex.cmp_ge(X.n, 1), "matrix-has-a-row", node, "the model reads the column count off row 0")
+        return ex.as_seq(X.at(0), st).n
+
+    def b_np_dot(self, ex, st, args, kwargs, node):
+        """np.dot(X.transpose(), Y) for a 2-D array X and a 2-D or 1-D array Y: kept as a symbolic product term
+        (shape known, entries not modelled); consumed by numpy.linalg.solve and the lstsq_solution vocabulary."""
+        trusted("numpy.dot / ndarray.transpose / numpy.linalg.solve: matrix product, transpose and the solution x of M x = v "
+                "(LinAlgError for a singular M); entries are not modelled, only which arrays the result was computed from")
+        a, b = args
+        if not (isinstance(a, Opaque) and a.kind == "transposed" and isinstance(b, Seq)):
+            raise EngineError("%s:L%d: np.dot other than np.dot(X.transpose(), Y) outside the subset" % (ex.fnname, node.lineno))
+        X = a.get("of")
+        if not (isinstance(X.ety(), tuple) and X.ety()[0].startswith("seq:")):
+            raise EngineError("%s:L%d: np.dot of a 1-D transpose outside the subset" % (ex.fnname, node.lineno))
+        ex.oblige(st, ex.cmp_eq(X.n, b.n), "dot-shapes", node, "rows of the transposed factor and of the right factor")
+        cx = self._cols(ex, st, X, node)
+        if isinstance(b.ety(), tuple) and b.ety()[0].startswith("seq:"):
+            return Opaque("matprod", left=X, right=b, shape=(cx, self._cols(ex, st, b, node)))
+        return Opaque("matvec", left=X, right=b, shape=(cx,))
+
+    def b_np_solve(self, ex, st, args, kwargs, node):
+        M, v = args
+        if not (isinstance(M, Opaque) and M.kind == "matprod" and isinstance(v, Opaque) and v.kind == "matvec"):
+            raise EngineError("%s:L%d: linalg.solve of anything but the products above outside the subset" % (ex.fnname, node.lineno))
+        r, c = M.get("shape")
+        ex.oblige(st, ex.cmp_eq(r, c), "solve-square", node)
+        ex.oblige(st, ex.cmp_eq(r, v.get("shape")[0]), "solve-shapes", node)
+        w = z3.Bool(uid("raises_LinAlgError"))
+        st.pending.append((list(st.pc), w, "LinAlgError"))
+        st.assume(z3.Not(w))
+        xf = z3.Function(uid("solve_x"), I, R)
+        x = Seq(r, lambda i: xf(to_z3(as_int(i))), "array")
+        reg = list(st.ghost.get("__solves__", []))
+        reg.append((x, M, v))
+        st.ghost["__solves__"] = reg
+        return x
+
+    def sf_lstsq_solution(self, ex, node, st):
+        """lstsq_solution(A, b): the array numpy.linalg.solve returned for (A^T A) x = A^T b in this execution, for
+        exactly these two array objects; an unconstrained array when no such call happened (nothing is provable then)."""
+        A = ex.eval(node.args[0], st)
+        b = ex.eval(node.args[1], st)
+        for x, M, v in st.ghost.get("__solves__", []):
+            if M.get("left") is A and M.get("right") is A and v.get("left") is A and v.get("right") is b:
+                return x
+        return fresh_seq("real", "no_such_solve", (), None, "array")
 
     def b_np_isscalar(self, ex, st, args, kwargs, node):
         return is_scalar(args[0])
